@@ -22,7 +22,9 @@ RULE = ("Hypothesis draws physically meaningful parameter sets and true temperat
         "1e-6 * max(|x|, 1 K resp. 1e-6 strain). Polynomial and table scalings are compared with Horner and clamped "
         "interpolation. Non-trivial: lead resistance > 0, or T < 0 degC, or initial voltage != 0, or gain != 1."
         ' Through files the sensor scale may be fed by Linear scales (input source 0 or 1, power-of-two slopes so that '
-        'the pre-image is exact) instead of the raw data.')
+        'the pre-image is exact) instead of the raw data.'
+        ' Float32 voltages (truth = numerical inverse of the forward law at the rounded voltage) and repeated '
+        'evaluation with one scaling object are included.')
 ASSUMPTIONS = [
     "RTD coefficients within +-5 % of the IEC 60751 values, so the quartic has a single negative real root",
     "voltage-excitation thermistor in 2-wire configuration only with zero lead resistance (compensation rule not documented)",
